@@ -13,6 +13,7 @@ import (
 	"syscall"
 	"time"
 
+	"github.com/criyle/go-sandbox/pkg/forkexec"
 	"github.com/criyle/go-sandbox/ptracer"
 	"github.com/criyle/go-sandbox/runner"
 	"github.com/criyle/go-sandbox/zverif/vcore"
@@ -92,8 +93,8 @@ func c11KRun(c *vcore.Ctx) *vcore.Violation {
 	const prop = "C11"
 	src := c.Src
 	kind := src.Pick("runner", "ptrace", "ptrace", "unshare", "container")
-	instant := src.Pick("instant", "before_start", "in_sync_callback", "program_running", "program_exiting", "at_tracer_wait", "in_policy_consultation")
-	if kind != "ptrace" && (instant == "at_tracer_wait" || instant == "in_policy_consultation") {
+	instant := src.Pick("instant", "before_start", "in_sync_callback", "program_running", "program_exiting", "at_tracer_wait", "in_policy_consultation", "child_before_setsid")
+	if kind != "ptrace" && (instant == "at_tracer_wait" || instant == "in_policy_consultation" || instant == "child_before_setsid") {
 		instant = "program_running"
 	}
 	c.Event("runner:" + kind)
@@ -116,6 +117,22 @@ func c11KRun(c *vcore.Ctx) *vcore.Violation {
 	c.Fault("cancel_" + instant)
 	if instant == "before_start" {
 		cancel()
+	}
+	withSync := instant != "child_before_setsid" && !(instant == "before_start" && src.Bool(1, 2, "nosync"))
+	if instant == "child_before_setsid" {
+		// the child gate holds the freshly cloned child before its setsid; the context is cancelled while
+		// it is held (the canceller's kill of the process group finds no such group yet), then it is released
+		gr, gw, _ := os.Pipe()
+		forkexec.VGateFd = gr.Fd()
+		go func() {
+			time.Sleep(30 * time.Millisecond)
+			cancel()
+			time.Sleep(30 * time.Millisecond)
+			forkexec.VGateFd = 0
+			gw.Write([]byte{1})
+			gw.Close()
+			gr.Close()
+		}()
 	}
 	var syncPid int
 	syncFunc := func(pid int) error {
@@ -179,7 +196,11 @@ func c11KRun(c *vcore.Ctx) *vcore.Violation {
 	ok := watchdog(25*time.Second, func() {
 		switch kind {
 		case "ptrace":
-			res, _ = kRunPtrace(ctx, &kOpts{script: script, filter: kFilterAllowAllBut([]string{"mkdirat"}, nil), handler: h, extra: extra, syncFunc: syncFunc})
+			o := &kOpts{script: script, filter: kFilterAllowAllBut([]string{"mkdirat"}, nil), handler: h, extra: extra, syncFunc: syncFunc}
+			if !withSync {
+				o.syncFunc = nil
+			}
+			res, _ = kRunPtrace(ctx, o)
 		case "unshare":
 			res, _ = kRunUnshare(ctx, &kOpts{script: script, extra: extra, syncFunc: syncFunc})
 		default:
@@ -199,6 +220,9 @@ func c11KRun(c *vcore.Ctx) *vcore.Violation {
 		if kind == "container" && sharedCt != nil {
 			sharedCt.destroy()
 			sharedCt = nil
+		}
+		for _, p := range descendants(os.Getpid()) {
+			syscall.Kill(p, syscall.SIGKILL)
 		}
 		return vcore.Violate(prop, "cancel_lost", site, "25 s after the cancellation (%s) the run has not returned", instant)
 	}
